@@ -640,7 +640,33 @@ def _null_character_in_function_names(ctx):
             ctx.violation(f"converter-misbehaves:{type(out.exc).__name__}:func-name:null-character", f"{label}: {out!r:.200}", {})
 
 
-DIRECTED = {"keyword-keys-and-generated-names": _witnesses, "unnormalised-identifiers": _unnormalised_identifiers,
+def _attributes_named_like_keywords(ctx):
+    """Attribute-accessed fields whose name is a keyword or not NFKC-normalised (a pydantic model made with create_model): the generated
+    dumper and converter read them with getattr, not as `data.class` / `data.ﬁ` (defect #100)."""
+    try:
+        from pydantic import create_model  # noqa: PLC0415
+    except ImportError:
+        ctx.count("pydantic_missing")
+        return
+    for names in (["class"], ["from", "ok"], ["ﬁ"], ["µ", "class", "plain"]):
+        A = create_model(f"PKA{next(_n)}", **{n: (int, ...) for n in names})
+        B = create_model(f"PKB{next(_n)}", **{n: (int, ...) for n in names})
+        value = {n: i + 1 for i, n in enumerate(names)}
+        obj = A(**value)
+        r = Retort()
+        outs = {"dump": attempt(r.dump, obj), "load": attempt(lambda: r.load(dict(value), A).model_dump()), "convert": attempt(lambda: get_converter(A, B)(obj).model_dump())}
+        for what, o in outs.items():
+            ctx.evaluated(("directed-keyword-attribute", tuple(names), what), nontrivial=True)
+            ctx.count("programs")
+            if o.kind != "ok":
+                cause = getattr(o.exc, "__cause__", None)
+                ctx.violation(f"generation-failed:{what}:{type(cause).__name__ if cause is not None else type(o.exc).__name__}:attribute-named-like-keyword",
+                              f"pydantic model with fields {names} {what}: {o.exc!r:.160} cause={cause!r:.160}", {"names": names})
+            elif o.value != value or list(map(ascii, sorted(o.value))) != list(map(ascii, sorted(value))):
+                ctx.violation(f"{what}-differs:attribute-named-like-keyword", f"fields {names} {what}: {ascii(o.value)}, expected {ascii(value)}", {"names": names})
+
+
+DIRECTED = {"attributes-named-like-keywords": _attributes_named_like_keywords, "keyword-keys-and-generated-names": _witnesses, "unnormalised-identifiers": _unnormalised_identifiers,
             "keys-of-str-and-int-subclasses": _keys_of_str_and_int_subclasses, "null-character-in-function-names": _null_character_in_function_names}
 from ..suite_leg import make as _suite_leg  # noqa: E402
 
